@@ -18,11 +18,11 @@ PROPS = {
     "C08": dict(groups=["tzifgen", "tzifiana"], families=["tzif", "tzifgen", "tzifbad"], level="proof", errkind_matters=False, theorems=["TzVerif.C08." + t for t in ['big_endian_roundtrip', 'decode_encode_v1', 'decode_encode_v2_v3', 'bad_magic', 'bad_version', 'inconsistent_counts', 'truncated_block', 'truncated_v1', 'trailing_bytes_v1', 'type_record', 'indicator_pairs', 'accepted_files_are_well_formed', 'legacy_counterexample']]),
     "C09": dict(groups=["tzstr"], families=["tzfooter"], level="proof", errkind_matters=False, theorems=["TzVerif.C09." + t for t in ['reader_is_grammar', 'parser_is_reference', 'parse_complete', 'parse_sound', 'ascii_only', 'footer']]),
     "C10": dict(groups=["iana"], families=["tzif", "zone", "lookup", "find"], level="other", errkind_matters=False, theorems=[], special="c10"),
-    "C11": dict(groups=["rulenew", "rulepairs"], families=["rulenew"], level="exploration", errkind_matters=True, theorems=[], exhaustive=True),
+    "C11": dict(groups=["rulenew", "rulepairs"], families=["rulenew"], level="proof", errkind_matters=True, theorems=["TzVerif.C11." + t for t in ["new_accepts_iff","new_errors","all_years_decided_on_a_cycle","no_order_flip"]], exhaustive=True),
     "C12": dict(groups=["leap"], families=["zone", "lookup", "find", "dtfrom"], level="proof", errkind_matters=False, theorems=["TzVerif.C12." + t for t in ['to_utc_correct', 'takes_effect_exactly', 'to_utc_monotone', 'to_count_monotone', 'roundtrip', 'to_count_total', 'inserted_shares', 'deleted_skips', 'legacy_counterexample']]),
     "C13": dict(groups=["zonenew", "lttnew"], families=["zonenew", "lttnew", "zone"], level="proof", errkind_matters=True, theorems=["TzVerif.C13." + t for t in ['accepts_iff', 'new_iff', 'errors_specific', 'saturating_spacing', 'saturating_step', 'rule_clause_compares_all', 'local_time_type_iff', 'local_time_type_errors', 'designation_alphabet']]),
     "C14": dict(groups=["dt", "zonelookup", "find"], families=["dtnew", "dtfromlocal", "dttn", "dtcmp", "dtfrom", "dtfromtn", "find"], level="proof", errkind_matters=False, theorems=["TzVerif.C14." + t for t in ['new_correct', 'new_invariant', 'from_timespec_and_local', 'from_timespec_and_local_accepts', 'from_timespec_zone', 'from_total_nanoseconds', 'from_total_nanoseconds_and_local', 'projection', 'search_entries', 'equality', 'ordering']]),
-    "C15": dict(groups=["threads"], families=["threads", "lookup", "find", "findn", "dtfrom", "tzifgen"], level="other", errkind_matters=False, theorems=[], special="c15"),
+    "C15": dict(groups=["threads"], families=["threads", "lookup", "find", "findn", "dtfrom", "tzifgen"], level="other", errkind_matters=False, theorems=["TzVerif.C15." + t for t in ["no_forbidden_construct","ambient_calls_are_the_two_documented_ones","all_files_scanned"]], special="c15"),
     "C16": dict(groups=["tn", "dt", "zonelookup"], families=["utctn", "dttn", "utcnew", "dtfromtn"], level="proof", errkind_matters=False,
                 theorems=["TzVerif.C16." + t for t in ["split_correct", "split_range", "recombine", "roundtrip", "roundtrip'", "recombine_fits_i128",
                                                        "utc_from_total", "dt_from_total_local", "dt_from_total_zone", "nanoseconds_refused"]]),
